@@ -103,6 +103,22 @@ static Outcome in_context(Context cx, F f) {
 }
 
 
+// Snapshot of the recorded violations, so that a judged call can be undone and reported again under another name
+// (prior-history parts: "does the same call also fail without any history?" is asked before the finding gets its key).
+struct ViolSnapshot {
+  vf::Ctx& c;
+  std::map<std::string, uint64_t> vc;
+  size_t nv;
+  uint64_t ev;
+  explicit ViolSnapshot(vf::Ctx& ctx) : c(ctx), vc(ctx.viol_counts), nv(ctx.violations.size()), ev(ctx.evaluations) {}
+  bool changed() const { return c.viol_counts != vc; }
+  void rollback() {
+    c.viol_counts = vc;
+    c.violations.erase(c.violations.begin() + (long)nv, c.violations.end());
+    c.evaluations = ev;
+  }
+};
+
 // true if the decimal spelling of n occurs in s as a maximal run of digits ("1234" is not found in "1,234" or "12345")
 static inline bool has_decimal(const std::string& s, uint64_t n) {
   char b[32];
